@@ -468,41 +468,19 @@ impl DBM {
         tower_id: TowerId,
         locator: Locator,
     ) -> Result<(), SqliteError> {
-        // We will delete data from pending_appointments or from appointments depending on whether the later has a single reference
-        // to it or not. If that's the case, deleting the entry from appointments will trigger a cascade deletion of the entry in pending.
-        // If there are other references, this will be deleted when removing the last one.
-        let count = {
-            let mut stmt = self
-                .connection
-                .prepare("SELECT COUNT(*) FROM pending_appointments WHERE locator=?")
-                .unwrap();
-            let pending = stmt
-                .query_row(params![locator.to_vec()], |row| row.get::<_, u32>(0))
-                .unwrap();
-
-            let mut stmt = self
-                .connection
-                .prepare("SELECT COUNT(*) FROM invalid_appointments WHERE locator=?")
-                .unwrap();
-            let invalid = stmt
-                .query_row(params![locator.to_vec()], |row| row.get::<_, u32>(0))
-                .unwrap_or(0);
-
-            pending + invalid
-        };
-
+        // Delete the reference this tower holds and, if that was the last one (no other tower has the appointment as
+        // pending or invalid), the appointment data too.
         let tx = self.get_mut_connection().transaction().unwrap();
-        if count == 1 {
-            tx.execute(
-                "DELETE FROM appointments WHERE locator=?",
-                params![locator.to_vec()],
-            )?;
-        } else {
-            tx.execute(
-                "DELETE FROM pending_appointments WHERE locator=?1 AND tower_id=?2",
-                params![locator.to_vec(), tower_id.to_vec()],
-            )?;
-        };
+        tx.execute(
+            "DELETE FROM pending_appointments WHERE locator=?1 AND tower_id=?2",
+            params![locator.to_vec(), tower_id.to_vec()],
+        )?;
+        tx.execute(
+            "DELETE FROM appointments WHERE locator=?1 
+                AND NOT EXISTS (SELECT 1 FROM pending_appointments WHERE locator=?1) 
+                AND NOT EXISTS (SELECT 1 FROM invalid_appointments WHERE locator=?1)",
+            params![locator.to_vec()],
+        )?;
         tx.commit()
     }
 
